@@ -370,8 +370,97 @@ def rule_r5(repo, run):
               "linelen must come from self.linelen", um.loc(wc))
 
 
+# Longest text a format field can expand to for identifiers of ordinary length (<= 63 characters, the Fortran
+# limit, as the property states).  NAME = a user identifier; generated names add a fixed prefix/suffix.
+NAME = 63
+RESULT_NAME = 6         # SHT_rv
+FIELD_BOUND = {
+    "f_var": NAME, "c_var": NAME + 3, "c_var_context": NAME + 1, "c_var_capsule": NAME + 1, "F_pointer": NAME + 6,
+    "c_var_len": NAME + 1, "c_var_trim": NAME + 1, "c_var_size": NAME + 1, "f_shape_var": NAME + 6,
+    "hnamefunc0": 40, "hnamefunc1": 40, "f_type": 26, "f_intent": 5, "f_assumed_shape": 15, "f_c_dimension": 3,
+    "f_kind": 20, "F_capsule_type": 30, "F_array_type": 30, "F_result": RESULT_NAME, "F_derived_member": 6,
+    "rank": 1, "F_capsule_data_type": 30,
+}
+# fields whose text is itself assembled with break hints (argument lists, shapes built from user expressions)
+SELF_BREAKING = {"F_arg_c_call", "F_C_call", "f_array_shape", "f_array_allocate", "f_declare_shape_array",
+                 "f_pointer_shape", "f_get_shape_array", "c_var_dimension", "F_C_arguments", "F_arguments",
+                 "f_declare_shape_prefix"}
+BODY_INDENT = 8
+
+
+def rule_r6(repo, run):
+    R = run.rule("C13.R6", "every piece of a Fortran statement template between two break hints fits in 132 columns "
+                           "for identifiers of up to 63 characters")
+    from sa import tables
+    table = tables.StatementTable(repo, "statements", "fc_statements")
+    n = 0
+    for name, e in sorted(table.resolve_all("c++").items()):
+        if not name.startswith("f_"):
+            continue
+        is_result = "result" in name.split("_")
+        for clause in ("declare", "pre_call", "call", "post_call", "arg_decl"):
+            for s_ in e.lines(clause):
+                for line in s_.split("\n"):
+                    if not line.strip():
+                        continue
+                    worst, wseg = 0, ""
+                    unknown = []
+                    for seg in re.split(r"[\t\f]", line):
+                        text = re.sub(r"^[-+#^@]+", "", seg)
+                        fields = re.findall(r"\{(\w+)\}", text)
+                        if any(f in SELF_BREAKING for f in fields):
+                            continue
+                        size = len(re.sub(r"\{\w+\}", "", text).replace("{{", "{").replace("}}", "}"))
+                        for f in fields:
+                            b = FIELD_BOUND.get(f)
+                            if b is None:
+                                unknown.append(f)
+                                b = 20
+                            if is_result and f in ("f_var", "c_var", "c_var_context", "c_var_capsule", "F_pointer"):
+                                b = b - NAME + RESULT_NAME
+                            size += b
+                        if size > worst:
+                            worst, wseg = size, seg
+                    n += 1
+                    for f in sorted(set(unknown)):
+                        run.unmodelled_site(R, "statements.fc_statements[%s].%s" % (name, clause),
+                                            "no length bound for field {%s}; 20 assumed" % f)
+                    run.check(R, "statements.fc_statements[%s].%s:%s" % (name, clause, re.sub(r"\s+", " ", line.strip())[:40]),
+                              BODY_INDENT + worst + 2 <= 132,
+                              "the piece %r can reach %d columns (indent %d + text + continuation) with 63-character "
+                              "names and has no break hint (\\t) inside: gfortran rejects the line as truncated"
+                              % (wseg.strip()[:60], BODY_INDENT + worst + 2, BODY_INDENT), table.loc(e.raw),
+                              sample=dict(entry=name, clause=clause, piece=wseg.strip()[:80], bound=BODY_INDENT + worst + 2))
+    run.floor(R, "Fortran statement template lines", n, 90)
+
+
+def rule_r7(repo, run):
+    R = run.rule("C13.R7", "a template line whose code begins with a layout metacharacter is marked literal with @")
+    n = 0
+    for mn in ("wrapc", "wrapf", "wrapp", "wrapl", "statements", "whelpers", "util", "typemap"):
+        m = repo.module(mn)
+        for node in ast.walk(m.tree):
+            if isinstance(node, ast.Constant) and isinstance(node.value, str) and ("--" in node.value or "++" in node.value):
+                for line in node.value.split("\n"):
+                    mm = re.match(r"^(@?)(--|\+\+)\s*[A-Za-z_(\[{*]", line)
+                    if not mm:
+                        continue
+                    code_like = ";" in line or "->" in line or re.search(r"[=()]", line) is not None
+                    if not code_like:
+                        continue            # e.g. the placeholder names '--none--'
+                    n += 1
+                    run.check(R, "%s:%s" % (mn, re.sub(r"\s+", " ", line.strip())[:40]), mm.group(1) == "@",
+                              "the line `%s` starts with the C operator %s, which write_lines reads as two indentation "
+                              "directives and deletes: the statement loses its operator. Prefix the line with @"
+                              % (line.strip()[:50], mm.group(2)), m.loc(node), sample=dict(line=line.strip()[:60]))
+    if n < 1:
+        raise AnalysisError("C13.R7: the literal-line example (`@--cap->refcount;`) was not found; rule would be vacuous")
+
+
 def run(repo, run, tier):
     rule_r1(repo, run)
     rule_r2(repo, run)
     rule_r3_r4(repo, run)
     rule_r5(repo, run)
+    rule_r6(repo, run)
+    rule_r7(repo, run)
